@@ -44,6 +44,10 @@ def _inline(text, old, new):
 A[4] = _inline(A[1], "    integer :: c1", "    integer :: c9")
 B[4] = _inline(B[1], "    integer :: d", "    integer :: d9")
 C[4] = _inline(C[1], "  type(t) :: w", "  type(t) :: w9")
+# variant 5: a name moves between the top level and a nested scope; a module shadows a type it used to import
+A[5] = A[1].replace("end module ma\n", "end module ma\nsubroutine helper_a()\nend subroutine helper_a\n")
+B[5] = "module mb\n  use ma, only: gen\n  implicit none\n  type :: t\n    integer :: own\n  end type t\n  type, extends(t) :: u\n    integer :: d\n  end type u\ncontains\n  subroutine useit(x)\n    type(u), intent(inout) :: x\n    x%own = 1\n    x%d = 2\n  end subroutine useit\nend module mb\n"
+C[5] = "module wrap\n  implicit none\ncontains\n  subroutine lonely()\n    use mb, only: useit\n  end subroutine lonely\nend module wrap\n"
 CONTENT = {"a": A, "b": B, "c": C}
 
 
@@ -197,16 +201,18 @@ def main(tier, seed):
             ck.machinery("model self-test: deviation %s not detected" % dv)
     hists = []
     info = {}
-    for st in tlc.dump_states("Workspace", "Workspace_Gen_%s.cfg" % tier, info=info, timeout=1800):
-        h = st["hist"]
-        if h and h[-1]["e"] != "query":
-            hists.append(h)
-    ck.add_tlc("Workspace_Gen", info["result"])
+    for cfgname in ("Workspace_Gen_%s.cfg" % tier, "Workspace_Gen2_%s.cfg" % tier):
+        info = {}
+        for st in tlc.dump_states("Workspace", cfgname, info=info, timeout=1800):
+            h = st["hist"]
+            if h and h[-1]["e"] != "query":
+                hists.append(h)
+        ck.add_tlc(cfgname, info["result"])
     # keep maximal histories only (a prefix is checked while its extension is replayed)
     hs = {json.dumps(h, sort_keys=True) for h in hists}
     maximal = [h for h in hists if not any(json.dumps(h2[: len(h)], sort_keys=True) == json.dumps(h, sort_keys=True) and len(h2) > len(h) for h2 in ())]
     maxlen = max(len(h) for h in hists)
-    hists = [h for h in hists if len(h) == maxlen]
+    hists = [h for h in hists if len(h) >= maxlen - 1]
     nsim = 120 if tier == "quick" else 1500
     for beh in tlc.simulate("Workspace", "Workspace_Sim.cfg", num=nsim, depth=13, seed=seed + 5, workers=8, timeout=900):
         hists.append(beh[-1][1]["hist"])
